@@ -50,6 +50,16 @@ func errResult(c ssa.Value) (ssa.Value, bool) {
 	return nil, false
 }
 
+// errResultType: does the signature have an error result?
+func errResultType(sig *types.Signature) (int, bool) {
+	for i := 0; i < sig.Results().Len(); i++ {
+		if isErrType(sig.Results().At(i).Type()) {
+			return i, true
+		}
+	}
+	return -1, false
+}
+
 func isErrType(t types.Type) bool {
 	if types.Identical(t, errorType) {
 		return true
@@ -124,7 +134,7 @@ func ruleIOErr(p *Prog, r *RuleResult) {
 	var k keyer
 	for _, f := range p.ModFns {
 		rel := p.Rel(f)
-		if rel != "io" && rel != "bitstream" {
+		if rel != "io" && rel != "bitstream" && rel != "app" {
 			continue
 		}
 		fname := p.FnName(f)
@@ -151,7 +161,19 @@ func ruleIOErr(p *Prog, r *RuleResult) {
 						what = "underlying " + recv.Obj().Name() + "." + o.Name()
 					case rp == p.ModPath && o.Name() == "Close" && (recv.Obj().Name() == "InputBitStream" || recv.Obj().Name() == "OutputBitStream"):
 						what = "shared " + recv.Obj().Name() + ".Close"
+					case rp == p.ModPath && rel == "io" && (recv.Obj().Name() == "InputBitStream" || recv.Obj().Name() == "OutputBitStream"):
+						// any other operation of the shared bitstream that reports its failure as an error value
+						// (HasMoreToRead): a source failure must not be read as "no more data"
+						if _, has := errResultType(c.Signature()); has {
+							what = "shared " + recv.Obj().Name() + "." + o.Name()
+						}
 					}
+				}
+			} else if callee := c.StaticCallee(); callee != nil && rel == "app" && p.Rel(callee) == "io" && callee.Signature.Recv() != nil &&
+				(callee.Name() == "Read" || callee.Name() == "Write" || callee.Name() == "Close") {
+				// the command-line tool drives the compressed stream: what the stream reports must reach the exit status
+				if rn := namedOf(callee.Signature.Recv().Type()); rn != nil && (rn.Obj().Name() == "Reader" || rn.Obj().Name() == "Writer") {
+					what = "compressed-stream " + rn.Obj().Name() + "." + callee.Name()
 				}
 			} else if callee := c.StaticCallee(); callee != nil && p.Rel(callee) == "bitstream" {
 				flushFn := p.MethodOpt("bitstream", "DefaultOutputBitStream", "flush")
@@ -171,6 +193,12 @@ func ruleIOErr(p *Prog, r *RuleResult) {
 				return
 			}
 			key := k.key(fname, strings.ReplaceAll(what, " ", "-"))
+			if _, isDefer := i.(*ssa.Defer); isDefer && rel == "app" {
+				// safety-net defers of the tool (they run on the early error returns; on the success path the stream and
+				// the files are closed by ordinary calls, which R-REMOVE-ORDER requires before a source is removed)
+				r.exempt(key, p.IPos(i), "safety-net defer of the command-line tool: not the call that decides the exit status")
+				return
+			}
 			if _, isDefer := i.(*ssa.Defer); isDefer {
 				r.fail(key, p.IPos(i), what+" is deferred: its error cannot be reported")
 				n++
